@@ -175,7 +175,7 @@ Proof.
   - inv_some Hr. split; [reflexivity|].
     match goal with E : (is_server c && _)%bool = true |- _ =>
       apply andb_true_iff in E; destruct E as [E _]; unfold is_server in E;
-      destruct (c_var c); [discriminate|reflexivity] end.
+      destruct (c_var c); try discriminate; reflexivity end.
 Qed.
 
 Lemma minv_init : forall c, MInv c init.
@@ -227,7 +227,7 @@ Proof.
 Qed.
 
 Lemma is_server_var : forall c, is_server c = true -> c_var c = VServer.
-Proof. intros c H. unfold is_server in H. destruct (c_var c); [discriminate|reflexivity]. Qed.
+Proof. intros c H. unfold is_server in H. destruct (c_var c); try discriminate; reflexivity. Qed.
 
 Lemma minv_step : forall c s l s', good c -> MInv c s -> step c s l = Some s' -> MInv c s'.
 Proof.
